@@ -180,6 +180,22 @@ CHECKS['C18'] = {
                  'bounded exhaustive enumeration elsewhere',
 }
 
+CHECKS['C11'] = {
+    'text': 'Bounded symbolic model checking of the ledger tables: for ledgers of up to 3 directives built with '
+            'beancount.core.data constructors from symbolic fields (dates, payee / narration strings, metadata values, flags) '
+            'and enumerated palettes (accounts, units, costs, prices, tag sets, posting metadata absent / plain / keyed), '
+            'every column of #postings and #entries and of each typed directive table, the accounts and commodities tables '
+            'and the meta / entry_meta / any_meta / open_meta / commodity_meta / open_date / close_date lookups equal a '
+            'direct traversal of the entries written from the property; row count and order for every mix of directive '
+            'kinds; two ledgers attached in one process; the announced datatype of every column (shared with C04); the '
+            'loader-produced fixture ledger of 26 directives natively.',
+    'design_ref': 'DESIGN.md section 5, C11',
+    'note': _COMMON_NOTE + ' hash_entry (id column) goes through hashlib and is compared on the concrete fixture ledger '
+            'only. Amounts come from palettes (R4).',
+    'technique': 'symbolic execution (CrossHair/z3) of the column accessors and table iterators against a direct '
+                 'traversal oracle',
+}
+
 NOT_APPLICABLE = {
     pid: 'check under construction in this session; not claimed yet'
     for pid in ['C06', 'C11', 'C12', 'C13', 'C14', 'C16', 'C17', 'C18', 'C19', 'C20']
